@@ -34,7 +34,7 @@ theorem closes_panics (ls : List NLabel) (n : Net) (_hr : run? init ls = some n)
     rcases hcyc with h | h
     · simp [h]
     · simp [(GraphSpec.hasPath_spec n.graph b a).mpr h]
-  simp only [step?, halive, hidle]
+  simp only [step?, stepWith, halive, hidle]
   simp only [hc]
   refine ⟨_, by simp; rfl, ?_, ?_, ?_, ?_⟩ <;> simp [setN, hidle]
 
@@ -49,20 +49,20 @@ theorem waits_otherwise (n : Net) (a b : Nat) (halive : n.dead a = false) (hidle
       | false => rfl
       | true => exact absurd ((GraphSpec.hasPath_spec n.graph b a).mp hh) hno
     simp [hne, h1]
-  simp only [step?, halive, hidle, hc, hb]
+  simp only [step?, stepWith, halive, hidle, hc, hb]
   exact ⟨_, by simp; rfl, rfl, by simp [setN]⟩
 
 /-- `no_one_left_waiting`: after the panic the other participants do not wait forever: an ask whose
     callee has died, and an ask that has been answered, can always be resumed by its asker. -/
 theorem no_one_left_waiting (n : Net) (t : Nat) (h : (n.asks t).st = .lost ∨ (n.asks t).st = .answered) :
     ∃ n', step? n (.resume t) = some n' ∧ (n'.asks t).st = .done ∧ n'.busy (n.asks t).caller = none := by
-  rcases h with h | h <;> simp [step?, h, setN, clear] <;> split <;> simp [setN]
+  rcases h with h | h <;> simp [step?, stepWith, h, setN, clear] <;> split <;> simp [setN]
 
 /-- and asks in flight to an actor that dies are marked lost in the very step in which it dies -/
 theorem asks_to_dead_are_lost (n n' : Net) (y : Nat) (hs : step? n (.die y) = some n') (t : Nat)
     (hc : (n.asks t).callee = y) (hst : (n.asks t).st = .inflight) (hnb : n.busy y ≠ some t) :
     (n'.asks t).st = .lost := by
-  simp only [step?] at hs
+  simp only [step?, stepWith] at hs
   split at hs
   · cases hs
   · cases hs
